@@ -135,12 +135,15 @@ deriving DecidableEq, Repr
 
 def AggrChk.get (c : AggrChk) (i : Nat) : Option (List Sample) := (c.aggr[i]?).join
 
+/-- `o.samplesMergeFunc(acc, chunkIterator)` -/
+def mergeStep (seekFixed : Bool) (acc : AnyIt) (b : List Sample) : AnyIt :=
+  { σ := Node acc.σ XorIt, ops := nodeOps acc.ops xorOps seekFixed,
+    st := nodeNew acc.ops xorOps acc.st (XorIt.init b) }
+
 /-- `o.samplesMergeFunc` folded from the left over the iterators of one aggregate -/
 def mergeFold (seekFixed : Bool) : List (List Sample) → Option AnyIt
   | [] => none
-  | l :: ls => some (ls.foldl (fun acc b =>
-      { σ := Node acc.σ XorIt, ops := nodeOps acc.ops xorOps seekFixed,
-        st := nodeNew acc.ops xorOps acc.st (XorIt.init b) }) (xorIt l))
+  | l :: ls => some (ls.foldl (mergeStep seekFixed) (xorIt l))
 
 /-- the sub-chunks of aggregate `i`: those of the overlapping chunks in `addChunk` order, the
     base chunk's last -/
@@ -207,14 +210,17 @@ def hup : Nat → List ChunkIt → Nat → List ChunkIt
     let i := (j - 1) / 2
     if i = j || !hless h j i then h else hup f (hswap h i j) i
 
+/-- the smaller child in `heap.down` (`j1` = left child) -/
+def hchild (h : List ChunkIt) (j1 n : Nat) : Nat :=
+  if j1 + 1 < n && hless h (j1 + 1) j1 then j1 + 1 else j1
+
 /-- `heap.down` -/
 def hdown : Nat → List ChunkIt → Nat → Nat → List ChunkIt
   | 0, h, _, _ => h
   | f + 1, h, i, n =>
-    let j1 := 2 * i + 1
-    if j1 ≥ n then h else
-    let j := if j1 + 1 < n && hless h (j1 + 1) j1 then j1 + 1 else j1
-    if !hless h j i then h else hdown f (hswap h i j) j n
+    if 2 * i + 1 ≥ n then h else
+    if !hless h (hchild h (2 * i + 1) n) i then h
+    else hdown f (hswap h i (hchild h (2 * i + 1) n)) (hchild h (2 * i + 1) n) n
 
 def hpush (h : List ChunkIt) (x : ChunkIt) : List ChunkIt :=
   hup (h.length + 1) (h ++ [x]) h.length
